@@ -211,6 +211,15 @@ def run(tier):
         members = [[ers(u['x']), ers(u['y'])] for u in others if (ers(u['x']), ers(u['y'])) != (ers(t['x']), ers(t['y']))]
         if i % 5 == 4:
             members.append([ers(t['x']), ers(t['y'])])
+        elif i % 5 == 2 and t['lang'] == 'en':
+            # a collection its builder did not normalise: it holds the pair as it is asked ([X] / nb still on it), not the erased
+            # pair - the lookup is by the erased pair, so this is a pair that has not been seen
+            # (the pair: a functor with [X] on its feature-less S atoms and its own argument, so that it combines)
+            c = rng.choice(plain)
+            cx = add_x(c)
+            tx, ty = (cx, cx['r']) if cx['s'] == '/' else (cx['l'] if rng.random() < 0.5 else cx['r'], cx)
+            t = {'op': 'bin', 'lang': 'en', 'x': tx, 'y': ty, 'name': 'en'}
+            members = [m for m in members if m != [erased(tx), erased(ty)]] + [[tx, ty]]
         adhoc.append({'lang': t['lang'], 'x': t['x'], 'y': t['y'], 'members': members, 'frozen': i % 2 == 1})
     base_t = 2 * len(ft)
     for i, t in enumerate(adhoc):
